@@ -269,6 +269,7 @@ class C28(Property):
                   "correspondence check (no table/guard to translate)")
     assumptions = ["deployment names are distinct (dict keys); the StreamFlow file passed schema validation or is given as a dict "
                    "of the same shape"]
+    quick_budget_s = 480          # generous: the machine may be heavily loaded
     min_nontrivial = 50
 
     def _run_case(self, ctx: Ctx, case, lines, expect, meta, bucket):
@@ -363,9 +364,11 @@ class C28(Property):
         n = 1200 if ctx.tier == "quick" else 12000
         if ctx.mode == "search":
             n *= 3
-        for _ in range(n):
+        for k in range(n):
             if ctx.out_of_time():
-                ctx.extra["incomplete"] = True
+                ctx.extra["configs_run"] = k
+                if k < 250:
+                    ctx.extra["incomplete"] = True
                 break
             self._run_case(ctx, gen_case(rng, ctx.mode == "search"), lines, expect, meta, "random")
         got = ctx.lean(DRIVER, lines)
